@@ -33,9 +33,24 @@ def tasks(tier):
     # phase's fabrics ("AB"), the empty string -- : only "A".."E" name an olivine fabric, whatever look-up the parser uses
     for letter in _fabric_strings():
         t.append(("t_config_params", {"assemblage": ["olivine"], "n_fractions": 1, "fabric": letter}))
+    # phase names taken from the enumeration class's own namespace: every attribute name of MineralPhase that is not a
+    # member ("mro", "real", "__doc__", "_member_map_", ...) is an unknown phase, whatever look-up the parser uses
+    names = _phase_strings()
+    for nm in (names if tier == "thorough" else names[:6] + names[6::5]):
+        t.append(("t_config_params", {"assemblage": [nm], "n_fractions": 1, "fabric": "A"}))
     t += [("t_config_output", {"assemblage": a}) for a in (["olivine"], ["olivine", "enstatite"])]
     t += [("t_config_input", {}), ("t_config_modes", {}), ("t_config_special_values", {})]
     return t
+
+
+def _phase_strings():
+    from pydrex import core
+
+    P = core.MineralPhase
+    first = ["mro", "real", "__doc__", "_member_map_", "name", "value"]
+    rest = sorted(n for n in dir(P) if n not in P.__members__ and n not in first)
+    rest += [m.upper() for m in P.__members__] + [m.capitalize() for m in P.__members__] + [f"MineralPhase.{m}" for m in P.__members__] + [""]
+    return first + rest
 
 
 def _fabric_strings():
@@ -271,7 +286,16 @@ def t_config_params(sess, assemblage, n_fractions, fabric):
         if not reached:
             reached = sess.satisfiable(f"{pt}: reach", p.pc).verdict == "sat"
         ok = isinstance(out["phase_assemblage"], tuple) and all(isinstance(x, P) for x in out["phase_assemblage"]) and isinstance(out["initial_olivine_fabric"], F)
-        sess.prove(f"{pt}: phases and fabric are enumeration-typed, phases in a tuple", p.pc, z3.BoolVal(bool(ok)))
+        qe = sess.prove(f"{pt}: phases and fabric are enumeration-typed, phases in a tuple", p.pc, z3.BoolVal(bool(ok)))
+        if not qe.holds and all(isinstance(a, str) for a in assemblage):
+            ce = {"name": qe.name, "case": {"assemblage": list(assemblage)}, "cls": {"kind": "unknown phase name accepted", "parser": "_parse_phase"}}
+            first = getattr(sess, "_phase_cex", None)
+            if first is None:
+                sess._phase_cex = qe.name
+                ce["replay"] = "vf.props.C19:replay_phase"
+            else:
+                ce["same_as"] = first
+            sess.cex.append(ce)
         # when the key is given, the parsed fabric is the OLIVINE fabric of that letter -- and a string that names none
         # (another phase's fabric, a full member name, ...) cannot come back as a value at all
         present = z3.And(has_tab, flagv["initial_olivine_fabric"])
@@ -377,6 +401,41 @@ def replay_config(case):
         return {"reproduced": True, "detail": f"{type(e).__name__}: {e}", "config": lines}
     finally:
         os.chdir(cwd)
+
+
+def replay_phase(case):
+    """Public API: a TOML file whose phase_assemblage holds the given names (fraction 1 each... summing to one): only the
+    members of MineralPhase parse, to that member; every other string is a ConfigError."""
+    import os
+    import tempfile
+
+    import pydrex.io as pio
+    from pydrex import core, exceptions
+
+    d = tempfile.mkdtemp(prefix="c19p_")
+    with open(os.path.join(d, "start.scsv"), "w") as f:
+        f.write("---\nschema:\n  delimiter: ','\n  missing: '-'\n  fields:\n    - name: X\n      type: float\n      fill: NaN\n    - name: Y\n      type: float\n      fill: NaN\n---\nX,Y\n1.0,2.0\n")
+    problems = []
+    cwd = os.getcwd()
+    os.chdir(d)
+    try:
+        for nm in list(case.get("assemblage", [])) + ["olivine", "enstatite", "mro", "real", "__doc__", "_member_map_", "name", "Olivine", "MineralPhase.olivine", ""]:
+            with open("conf.toml", "w") as f:
+                f.write('[input]\nvelocity_gradient = ["simple_shear_2d", "Y", "X", 5e-6]\nlocations_initial = "start.scsv"\ntimestep = 1e9\n[parameters]\n'
+                        + f'phase_assemblage = ["{nm}"]\nphase_fractions = [1.0]\n')
+            want = core.MineralPhase.__members__.get(nm)
+            try:
+                got = pio.parse_config("conf.toml")["parameters"]["phase_assemblage"]
+                if want is None or len(got) != 1 or got[0] is not want:
+                    problems.append(f'phase_assemblage = ["{nm}"] parsed as {got!r}'[:160])
+            except exceptions.ConfigError:
+                if want is not None:
+                    problems.append(f'phase_assemblage = ["{nm}"] refused')
+            except Exception as e:  # noqa: BLE001
+                problems.append(f'phase_assemblage = ["{nm}"]: {type(e).__name__} instead of ConfigError')
+    finally:
+        os.chdir(cwd)
+    return {"reproduced": bool(problems), "detail": sorted(set(problems))[:6] or "phase names parsed as documented"}
 
 
 def replay_fabric(case):
